@@ -127,12 +127,14 @@ def impl(c):
     op, o, compat = c.args
     x = _make(o)
     try:
+        # every conversion is asked twice of the same object; the first answer is moved in place in between: a
+        # conversion hands out a new object (the identity conversions too), the receiver stays where it was
         if op == 'to4':
-            return _show(x.ipv4())
+            return _show(common.twice(lambda: [x.ipv4()])[0])
         if op == 'to6':
-            return _show(x.ipv6(compat))
+            return _show(common.twice(lambda: [x.ipv6(compat)])[0])
         if op == 'rt46':
-            return _show(x.ipv6(compat).ipv4())
+            return _show(common.twice(lambda: [x.ipv6(compat).ipv4()])[0])
         if op == 'mapped':
             return '%s %s' % (tf(x.is_ipv4_mapped()), tf(x.is_ipv4_compat()))
     except Exception as e:
